@@ -116,6 +116,11 @@ def run(ctx):
         from . import C10
         from .C19 import _Only
         C10.run(_Only(ctx, "R4", "R3"))
+    # the public entry points hand Vm::exec the caller's limit unchanged (C14 R2: exec_ops / exec_bytecode are forwarding wrappers)
+    if not getattr(ctx, "_src", None):
+        from . import C14
+        from .C19 import _OnlyKeys
+        C14.run(_OnlyKeys(ctx, "R2", "R1", r"exec_ops|exec_bytecode|eval"))
     # R2
     n_arith = 0
     for fn in prog.fns_by_crate["essential_vm"] + prog.fns_by_crate["essential_check"]:
